@@ -83,6 +83,75 @@ func runSched(prop string, sc *explore.Scenario, sp schedSpec, env *fw.Env, want
 	return res
 }
 
+// raceSched runs a scenario body free-running (no scheduler: the shims pass through to the real primitives) in the
+// -race build. The controlled exploration only interleaves at synchronisation operations, which is sufficient
+// provided there are no unsynchronised accesses; this pass is what looks for those. Reports are collected by the
+// framework from the detector's log; here only panics and hangs are turned into violations.
+func raceSched(prop string, sc *explore.Scenario, env *fw.Env, unit string) *fw.Result {
+	res := fw.NewResult()
+	iters := 8
+	if env.Thorough {
+		iters = 100
+	}
+	for it := 0; it < iters && !env.Expired(); it++ {
+		fw.Progress(fmt.Sprintf("free-running race pass, scenario %s iteration %d", sc.Name, it))
+		done := make(chan string, 1)
+		go func() {
+			defer func() {
+				if r := recover(); r != nil {
+					done <- fmt.Sprint("panic: ", r)
+				}
+			}()
+			sc.Body()
+			done <- ""
+		}()
+		select {
+		case p := <-done:
+			if p != "" {
+				res.Violate(fw.FP(prop, "race-pass-panic", sc.Name, firstLine(p)), sc.Name+" (free-running): "+p, unit, map[string]any{"kind": "race-pass", "scenario": sc.Name})
+				return res
+			}
+		case <-time.After(90 * time.Second):
+			res.Violate(fw.FP(prop, "race-pass-hang", sc.Name), sc.Name+" (free-running) did not finish within 90 s", unit, map[string]any{"kind": "race-pass", "scenario": sc.Name})
+			return res
+		}
+		res.Evaluations++
+		res.Count("free_running_iterations", 1)
+	}
+	res.Nontrivial = res.Evaluations
+	return res
+}
+
+// raceUnits / raceRun: helpers for checks that add a free-running race pass over (some of) their scenarios.
+func raceUnits(scs []*explore.Scenario, only func(name string) bool) []string {
+	var us []string
+	for _, sc := range scs {
+		if only == nil || only(sc.Name) {
+			us = append(us, "race/"+sc.Name)
+		}
+	}
+	return us
+}
+
+func raceRun(prop string, scs []*explore.Scenario, unit string, env *fw.Env) *fw.Result {
+	name := strings.TrimPrefix(unit, "race/")
+	for _, sc := range scs {
+		if sc.Name == name {
+			return raceSched(prop, sc, env, unit)
+		}
+	}
+	r := fw.NewResult()
+	r.HarnessErr = "unknown race unit " + unit
+	return r
+}
+
+func raceExe(unit string) string {
+	if strings.HasPrefix(unit, "race/") {
+		return "-race"
+	}
+	return ""
+}
+
 func head(s []string, n int) []string {
 	if len(s) > n {
 		return s[:n]
